@@ -31,11 +31,18 @@ pub struct GenIter<T> {
     pub lies: Vec<i64>,
     pub asks: usize,
     pub yielded: usize,
+    /// a non-fused iterator: after the first batch is exhausted it answers None ONCE, then goes on with this
+    /// second batch (a queue drain, a batch reader). len()/size_hint() describe the current batch.
+    pub second: VecDeque<T>,
+    pub gave_none: bool,
 }
 
 impl<T> GenIter<T> {
     pub fn honest(items: Vec<T>, hint_mode: u8) -> Self {
-        GenIter { items: items.into(), hint_mode, lies: vec![0], asks: 0, yielded: 0 }
+        GenIter { items: items.into(), hint_mode, lies: vec![0], asks: 0, yielded: 0, second: VecDeque::new(), gave_none: false }
+    }
+    pub fn honest_nonfused(items: Vec<T>, second: Vec<T>, hint_mode: u8) -> Self {
+        GenIter { items: items.into(), hint_mode, lies: vec![0], asks: 0, yielded: 0, second: second.into(), gave_none: false }
     }
     /// the answer to the next len()/size_hint() question (the schedule advances with every question)
     fn reported(&self) -> usize {
@@ -51,6 +58,13 @@ impl<T> Iterator for GenIter<T> {
     type Item = T;
     fn next(&mut self) -> Option<T> {
         tok::callback_point("next");
+        if self.items.is_empty() && !self.second.is_empty() {
+            if !self.gave_none {
+                self.gave_none = true;
+                return None;
+            }
+            return self.second.pop_front();
+        }
         let x = self.items.pop_front();
         if x.is_some() {
             self.yielded += 1;
@@ -196,6 +210,17 @@ impl<Hd: TokP, El: TokP> Engine for CtorEngine<Hd, El> {
             (h, id)
         };
         let mut uses_header = false;
+        // one iterator-driven case in four feeds an honest NON-FUSED iterator: exact len for the first batch,
+        // None once, then a second batch the constructor has no business with
+        let nonfused = c.p(5) & 3 == 3 && matches!(ctor, 2 | 3 | 4 | 5 | 7 | 10 | 13) && !El::ZST;
+        let (second, second_ids): (Vec<El>, Vec<u32>) = if nonfused {
+            let v: Vec<El> = (0..2).map(|i| El::make(900_000 + i)).collect();
+            let ids = v.iter().map(|e| e.peekp().id).collect();
+            (v, ids)
+        } else {
+            (vec![], vec![])
+        };
+        let mk = |items: Vec<El>, second: Vec<El>, mode: u8| if nonfused { GenIter::honest_nonfused(items, second, mode) } else { GenIter::honest(items, mode) };
         let z_before = El::live_now();
         let r = catch_unwind(AssertUnwindSafe(|| {
             track(|| -> Built<Hd, El> {
@@ -206,12 +231,12 @@ impl<Hd: TokP, El: TokP> Engine for CtorEngine<Hd, El> {
                         Built::Slice(Arc::from(v))
                     }
                     1 => Built::Slice(items.into_iter().collect()),
-                    2 => Built::Slice(GenIter::honest(items, 1).collect()),
-                    3 => Built::Slice(GenIter::honest(items, 2).collect()),
-                    4 => Built::USlice(GenIter::honest(items, c.p(3) % 3).collect()),
+                    2 => Built::Slice(mk(items, second, 1).collect()),
+                    3 => Built::Slice(mk(items, second, 2).collect()),
+                    4 => Built::USlice(mk(items, second, c.p(3) % 3).collect()),
                     5 => {
                         uses_header = true;
-                        Built::Hs(Arc::from_header_and_iter(hdr, GenIter::honest(items, 0)))
+                        Built::Hs(Arc::from_header_and_iter(hdr, mk(items, second, 0)))
                     }
                     6 => {
                         uses_header = true;
@@ -221,7 +246,7 @@ impl<Hd: TokP, El: TokP> Engine for CtorEngine<Hd, El> {
                     }
                     7 => {
                         uses_header = true;
-                        Built::Thin(ThinArc::from_header_and_iter(hdr, GenIter::honest(items, 0)))
+                        Built::Thin(ThinArc::from_header_and_iter(hdr, mk(items, second, 0)))
                     }
                     8 => {
                         let hs: Arc<HeaderSlice<(), [El]>> = Arc::from_header_and_vec((), items);
@@ -230,7 +255,7 @@ impl<Hd: TokP, El: TokP> Engine for CtorEngine<Hd, El> {
                         Built::Slice(back.into())
                     }
                     9 => Built::Sized(Arc::from(Box::new(items.into_iter().next().unwrap()))),
-                    10 => Built::Slice(GenIter::honest(items, 0).collect()),
+                    10 => Built::Slice(mk(items, second, 0).collect()),
                     11 => {
                         let x = items.into_iter().next().unwrap();
                         Built::Sized(if c.p(3) & 1 == 0 { Arc::new(x) } else { Arc::from(x) })
@@ -243,7 +268,7 @@ impl<Hd: TokP, El: TokP> Engine for CtorEngine<Hd, El> {
                     _ => {
                         uses_header = true;
                         let n = items.len();
-                        let fat = Arc::from_header_and_iter(HeaderWithLength::new(hdr, n), GenIter::honest(items, 0));
+                        let fat = Arc::from_header_and_iter(HeaderWithLength::new(hdr, n), mk(items, second, 0));
                         Built::Thin(Arc::into_thin(fat))
                     }
                 }
@@ -255,7 +280,7 @@ impl<Hd: TokP, El: TokP> Engine for CtorEngine<Hd, El> {
                 drop(e);
                 // allowed only as the up-front refusal of zero-sized elements
                 if !El::ZST {
-                    viol::report(P6, "K.ctor-panic", format!("{}: the constructor panicked", what));
+                    viol::report(P6, "K.ctor-panic", format!("{}{}: the constructor panicked", what, if nonfused { " (honest non-fused iterator: None once, then a second batch)" } else { "" }));
                 } else {
                     if !alloc::live_blocks().is_empty() {
                         viol::report(P6, "K.zst-refusal-leak", format!("{}: the up-front refusal left {} blocks allocated", what, alloc::live_blocks().len()));
@@ -319,6 +344,13 @@ impl<Hd: TokP, El: TokP> Engine for CtorEngine<Hd, El> {
                     match state(*id) {
                         Some((State::Dropped, 1)) => {}
                         Some((s, d)) => viol::report(P6, "K.drop-once", format!("{}: tok {} is {:?} with {} destructor runs after the handle was dropped (expected exactly one)", what, id, s, d)),
+                        None => {}
+                    }
+                }
+                for id in &second_ids {
+                    match state(*id) {
+                        Some((State::Dropped, 1)) => {}
+                        Some((s, d)) => viol::report(P6, "K.nonfused-second-batch", format!("{} (non-fused iterator): item tok {} of the second batch is {:?} with {} destructor runs at the end (the iterator was given by value: exactly one)", what, id, s, d)),
                         None => {}
                     }
                 }
@@ -514,7 +546,7 @@ impl<Hd: TokP, El: TokP> FaultEngine<Hd, El> {
         let k = c.p(7) as i64 % 24; // 0 = no panic
         *what = format!("{} over {} items, len()/size_hint() offsets {:?}, hint mode {}, panic at callback {}", FAULT_APIS[api], len, lies, hint_mode, k);
         rt::run::trace_stream(&what);
-        let it = GenIter { items: items.into(), hint_mode, lies, asks: 0, yielded: 0 };
+        let it = GenIter { items: items.into(), hint_mode, lies, asks: 0, yielded: 0, second: VecDeque::new(), gave_none: false };
         reset_len_asks();
         tok::panic_at(k);
         enum Out<Hd: TokP, El: TokP> {
